@@ -233,6 +233,25 @@ pub fn eval_v<A: HC>(v: &V) -> R<Seq<A>> {
                     let other: Seq<A> = syms.into_iter().collect();
                     Extend::extend(&mut s, other.iter());
                 }
+                // from another sequence's own iterator after it was partly consumed: the first symbol is dropped by
+                // skip(1) / a manual next() / it is peeked and kept (internal iteration of an advanced SeqIter)
+                "iterskip" | "iternext" | "iterpeek" | "reviterskip" => {
+                    let other: Seq<A> = syms.into_iter().collect();
+                    match kind.as_str() {
+                        "iterskip" => s.extend(other.iter().skip(1)),
+                        "iternext" => {
+                            let mut it = other.iter();
+                            let _ = it.next();
+                            s.extend(it)
+                        }
+                        "iterpeek" => {
+                            let mut it = other.iter().peekable();
+                            let _ = it.peek();
+                            s.extend(it)
+                        }
+                        _ => s.extend(other.rev_iter().skip(1)),
+                    }
+                }
                 _ => return Err(Fail::BadOp("ext kind".into())),
             }
             s
@@ -445,6 +464,33 @@ pub fn query<A: HC>(q: &str, t: &mut Toks) -> R<String> {
         "show" => {
             let s = parse_s(t)?;
             eval_s::<A, _>(&s, &mut |x| Ok(show(x)))?
+        }
+        "owned" => {
+            // method-call forms on an OWNED receiver (`Seq<A>` and `&Seq<A>`), which resolve to inherent methods of `Seq`
+            // before they reach `SeqSlice` through Deref
+            let i = t.num()?;
+            let v = eval_v::<A>(&parse_v(t)?)?;
+            let r = &v;
+            let g = |o: Option<A>| o.map(|s| format!("{:02x}", s.to_bits())).unwrap_or("none".into());
+            let n = v.len();
+            let w = (i % 3) + 1;
+            format!(
+                "{} {} {} {} {} {} {} {} {} {} {} {} {} {}",
+                v.len(),
+                r.is_empty(),
+                g(v.get(i)),
+                g(r.get(i)),
+                if i < n { format!("{:02x}", v.nth(i).to_bits()) } else { "-".into() },
+                codes(v.iter()),
+                codes(r.into_iter()),
+                codes(v.rev_iter()),
+                hex(v.to_string().as_bytes()),
+                content(&v.clone()),
+                content(&r.to_owned()),
+                slices(v.windows(w)),
+                slices(v.chunks(w)),
+                v == v.clone() && *r == v && v.eq(r)
+            )
         }
         "showv" => {
             // the display routes of an owned sequence: Display for Seq, ToString, From<&Seq> for String, From<Seq> for String
